@@ -209,9 +209,15 @@ def run(rep, facts, tier):
     V = inline.View(fx)
     cc = V('state::State::context_close')      # private helpers of context_close are looked through
     tracked = awrite.state_tracked(fx)
-    purge = [w for w in awrite.field_writes(fx, cc, tracked) if (w['field'][0] in ('code', 'debug_map') and w['how'] == 'call:shrink:truncate') or
+    purge = [w for w in awrite.field_writes(fx, cc, tracked) if (w['field'][0] in ('code', 'debug_map', 'sources') and w['how'] == 'call:shrink:truncate') or
              (w['field'][0] == 'dict' and w['how'].startswith('call:shrink'))]
-    rep.floor('C11.R3 purge statements in context_close', len(purge), 3)
+    rep.floor('C11.R3 purge statements in context_close', len(purge), 4)
+    for need_ in ('code', 'debug_map', 'dict', 'sources'):
+        if not any(w['field'][0] == need_ for w in purge):
+            rep.add('C11.R3', 'C11.R3:context_close:purges-%s' % need_, False,
+                    'context_close does not cut State.%s back when a meta block closes: %s' % (need_, {
+                        'sources': 'the record that a file was read outlives the words read from it, and a later `require` of that file is skipped',
+                    }.get(need_, 'what the block built survives it')), cc.name, cc.j['span'])
     for w in purge:
         gs = guards_of(cc, w['bb'])
         meta = False
@@ -232,13 +238,13 @@ def run(rep, facts, tier):
         # the Constant test is a discriminant switch, not a bool branch: fine
         ok = meta and not extra
         arg_ok = True
-        if w['field'][0] in ('code', 'debug_map'):
+        if w['field'][0] in ('code', 'debug_map', 'sources'):
             a = expr_str(cc.expr_of_operand(w['term']['args'][1]), -10)
-            arg_ok = 'ctx.cs_len' in a
+            arg_ok = ('ctx.so_len' if w['field'][0] == 'sources' else 'ctx.cs_len') in a
         rep.add('C11.R3', 'C11.R3:context_close:purges-%s' % w['field'][0], ok and arg_ok,
-                'guarded by the MetaEval test only%s' % ('; cut back to ctx.cs_len' if w['field'][0] != 'dict' else '') if ok and arg_ok else
+                'guarded by the MetaEval test only%s' % ('; cut back to the mark of the block' if w['field'][0] != 'dict' else '') if ok and arg_ok else
                 'the purge of %s is %s: something a meta block built can survive its close' %
-                (w['field'][0], 'skipped under a further condition %s' % extra if extra else 'not under the MetaEval test' if not meta else 'not cut to ctx.cs_len'),
+                (w['field'][0], 'skipped under a further condition %s' % extra if extra else 'not under the MetaEval test' if not meta else 'not cut to the mark of the block'),
                 cc.name, w['at'])
     # the decision how the block's results are emitted looks at the flows of the ENCLOSING context only (flow_stack[prev.fs_len..]):
     # seen through the whole stack, a definition opened further out would be mistaken for the enclosing construct
@@ -253,6 +259,29 @@ def run(rep, facts, tier):
             'context_close looks at the whole flow stack (%s): inside a word definition a nested block is emitted as if the definition were '
             'its enclosing construct' % ', '.join(sorted({short(ev['callee']) for ev in whole}) or ['no floored read found']),
             cc.name, (whole or floored or [{'at': cc.j['span']}])[0]['at'])
+    # ... and the decision is 'is anything open?', not 'is a definition open?': with a vector, if, loop or case open the enclosing
+    # block is assembling code as well (`#( [ #( 1 #) 2 ] #)` gave [ 2 ] and a stray 1).  The only construct that wants the value on
+    # the stack is the enum builder
+    singled = []
+    n_sw = 0
+    for bb in cc.reachable_blocks():
+        t = cc.blocks[bb]['term']
+        if t['k'] != 'switch':
+            continue
+        e = cc.expr_of_operand(t['discr'])
+        if not (isinstance(e, tuple) and e[0] == 'discr' and e[2] == 'state::Flow' and 'flow_stack' in expr_str(e[1], -20)):
+            continue
+        n_sw += 1
+        vs = None
+        for st in cc.blocks[bb]['stmts']:
+            if st['k'] == 'assign' and st['rv']['k'] == 'discr':
+                vs = dict(st['rv']['variants'])
+        singled += [(vs or {}).get(v, str(v)) for v, _ in t['targets'] if (vs or {}).get(v, str(v)) != 'Enum']
+    rep.add('C11.R3', 'C11.R3:context_close:results-compiled-wherever-a-structure-is-open', not singled,
+            'the emission test asks whether a flow is pending (%d switch(es) on the kind of flow, none singling out a construct but the enum builder)' % n_sw
+            if not singled else
+            'context_close decides by the kind of the innermost open construct (%s) whether a nested block\'s result is compiled in place: with '
+            'any other structure open the value is left on the build-time stack' % ', '.join(sorted(set(singled))), cc.name, cc.j['span'])
     # the same floor for everybody who SEARCHES the pending flows (the innermost definition for `local`, a loop for `break`): an
     # iteration over flow_stack starts at ctx.fs_len, otherwise a block inside a definition finds that definition's locals
     n_it = 0
